@@ -144,7 +144,7 @@ def build_state(ctx, name):
     if name == "not-initialised":
         H.update(s=1, s2=2, closed=3, objs={k: 10 + i for i, k in enumerate(OBJ_KINDS)}, stale=5)
         return H
-    W.ok(p.Initialize(), "init")
+    W.ok(p.Initialize("sched"), "init")       # application mutex callbacks that police the lock protocol: a re-lock of an owned mutex (self-deadlock) is reported
     if name == "no-session":
         H.update(s=1, s2=2, closed=3, objs={k: 10 + i for i, k in enumerate(OBJ_KINDS)}, stale=5)
         return H
@@ -350,6 +350,9 @@ def run_case(ctx, H, lines, sig, detail, out):
             last = r
             if r.get("asan"):
                 out["viol"].setdefault(sig + "|asan-report", {"signature": sig + "|asan-report", "detail": dict(detail, line=l[:400], asan=r["asan"]), "history": [x[:400] for x in lines], "action": None})
+                return
+            if r.get("serr"):
+                out["viol"].setdefault(sig + "|mutex-protocol-violated", {"signature": sig + "|mutex-protocol-violated", "detail": dict(detail, line=l[:400], problem=r["serr"]), "history": [x[:400] for x in lines], "action": None})
                 return
             if "rv" not in r:
                 break
